@@ -215,49 +215,41 @@ pub fn gen(g: &mut Gen) {
         g.emit(format!("czb {}", x));
     }
     g.count("hooks");
-    // Budget note: the shared harness loop costs ~0.4 ms per case (it rewrites
-    // current_case.txt for every case), so the quick tier stays near 1.3e5 lines; the
-    // thorough tier runs every enumeration in full with both decoders.
-    // 1. every string of length <= 2 over all 256 bytes (quick: one decoder per pair,
-    //    alternating; both when a backslash is involved)
+    // 1. every string of length <= 2 over all 256 bytes
     both(g, &[]);
     for a in 0..=255u8 {
         both(g, &[a]);
         g.emit(format!("trim {}", hex(&[a])));
         for b in 0..=255u8 {
-            if g.thorough || a == b'\\' || b == b'\\' { both(g, &[a, b]); }
-            else if (a as usize + b as usize) % 2 == 0 { g.emit(format!("utf8 {}", hex(&[a, b]))); }
-            else { g.emit(format!("w1252 {}", hex(&[a, b]))); }
+            both(g, &[a, b]);
         }
     }
     g.count("exhaustive-len<=2");
-    // 2. every string of length 3 over the significant alphabet (quick: a 16-byte core of it)
-    const CORE: [u8; 16] = [b'a', b' ', b'\n', 0x0B, b'\\', 0x7F, 0x80, 0x9F, 0xBF, 0xC2, 0xE0, 0xED, 0xEF, 0xF0, 0xF4, 0xFF];
-    let alpha3: &[u8] = if g.thorough { &ALPHA } else { &CORE };
-    for &a in alpha3 { for &b in alpha3 { for &c in alpha3 {
+    // 2. every string of length 3 over the significant alphabet
+    for &a in &ALPHA { for &b in &ALPHA { for &c in &ALPHA {
         both(g, &[a, b, c]);
-        if g.thorough { g.emit(format!("trim {}", hex(&[a, b, c]))); }
+        g.emit(format!("trim {}", hex(&[a, b, c])));
     } } }
-    g.count("exhaustive-len3-alphabet");
+    g.count("exhaustive-len3-alpha40");
     // 3. every single-byte perturbation at every offset of templates of length 0..40
-    //    (lengths cross the 8-byte chunk boundaries of decode_utf8 five times).
-    //    thorough: 4 templates x all 256 values; quick: 2 templates, the 40-byte significant
-    //    alphabet, one decoder per case (both for backslash / whitespace)
+    //    (lengths cross the 8-byte chunk boundaries of decode_utf8 five times)
     let kinds = g.budget(2, 4);
     for kind in 0..kinds {
         for len in 0..=40usize {
-            if !g.thorough && (len + kind) % 2 == 1 && len > 17 { continue; }
             let t = template(kind, len);
             both(g, &t);
             for off in 0..len {
+                // quick: all 256 values for the plain template, the significant alphabet otherwise
+                let full = g.thorough || kind == 0;
                 let mut one = |g: &mut Gen, v: u8| {
                     let mut m = t.clone();
                     m[off] = v;
-                    if g.thorough || v == b'\\' || ref_ws(v) { both(g, &m); }
-                    else if (off + v as usize + kind) % 2 == 0 { g.emit(format!("w1252 {}", hex(&m))); }
+                    // alternate the decoder, both for the bytes that matter most
+                    if v == b'\\' || v >= 0x80 || ref_ws(v) { both(g, &m); }
+                    else if (off + v as usize) % 2 == 0 { g.emit(format!("w1252 {}", hex(&m))); }
                     else { g.emit(format!("utf8 {}", hex(&m))); }
                 };
-                if g.thorough { for v in 0..=255u8 { one(g, v); } } else { for &v in &ALPHA { one(g, v); } }
+                if full { for v in 0..=255u8 { one(g, v); } } else { for &v in &ALPHA { one(g, v); } }
             }
         }
     }
@@ -295,7 +287,7 @@ pub fn gen(g: &mut Gen) {
     }
     g.count("utf8-sequences");
     // 5. random strings: bytes drawn from the alphabet / all bytes / valid scalars, any length
-    let n = g.budget(6_000, 150_000);
+    let n = g.budget(20_000, 600_000);
     for _ in 0..n {
         let len = g.rng.size(48);
         let mode = g.rng.below(4);
